@@ -44,6 +44,9 @@ ASSUMPTIONS = ['a stop is a return of run(); file states that exist only between
                'requires determinism for a fixed seed (C11)']
 
 
+QUICK_RESUMES = 4
+
+
 def gen_cases(tier, seed):
     n_cfg = 4 if tier == 'quick' else 40
     cases = []
@@ -70,7 +73,7 @@ def gen_cases(tier, seed):
             cfg.update(n_update=1, n_live=10, n_batch=2, f_live=0.05, n_networks=0, n_eff=20, n_shell=1,
                        n_like_new_bound=None, n_points_min=None, enlarge_per_dim=2.0, periodic=None)
         base = {'seed': seed, 'prob': pspec, 'cfg': cfg, 'j': j}
-        for r in range(R):
+        for r in (range(R) if tier == 'thorough' else (0, 3, 5, 6)):    # quick: half of the residue classes of k mod R
             cases.append(dict(base, kind='every_k', residue=r, i=len(cases)))
         if j % 2 == 0:
             # few bounds, many samples per shell (n_shell = 1300): every bound has to refill its proposal cache - and the
@@ -170,7 +173,7 @@ def run_case(spec):
     nb = cfg['n_batch']
     cap = 60 * nb + 40 * cfg['n_live'] + (1500 if cfg['n_update'] == 1 else 0) + (40000 if spec.get('deep') else 0) + (150000 if spec.get('stride') else 0)
     RR = spec.get('R', R)
-    obs = dict(union_members_max=0, started_over_stale_file=0, resumes_compared=0, sliced_runs_compared=0, batches_in_reference_max=0, fresh_process_resumes=0,
+    obs = dict(resume_points_thinned=0, union_members_max=0, started_over_stale_file=0, resumes_compared=0, sliced_runs_compared=0, batches_in_reference_max=0, fresh_process_resumes=0,
                phase={'exploration': 0, 'bound_insertion_next': 0, 'end_of_exploration': 0, 'sampling': 0},
                points_checked_for_double_evaluation=0, multi_histories=0, toggle_histories=0, stops=0)
     viols = []
@@ -238,7 +241,13 @@ def run_case(spec):
             if not viols and (result_digest(s), int(s.n_like)) != (d_ref, n_ref):
                 bad('resume.sliced-run-differs', 'run(n_like_max=k*n_batch) for every k gives a different result than '
                     'one uninterrupted run (n_like %d vs %d)' % (int(s.n_like), n_ref))
-            # ------------ resume from every kept copy
+            # ------------ resume from every kept copy (quick tier: at most QUICK_RESUMES per case, evenly spaced over
+            # the run, so that one configuration with many batches cannot make the per-change check take an hour)
+            if env.tier() == 'quick' and len(copies) > QUICK_RESUMES:
+                ks = sorted(copies)
+                keep = {ks[int(round(t))] for t in np.linspace(0, len(ks) - 1, QUICK_RESUMES)}
+                obs['resume_points_thinned'] = len(ks) - len(keep)
+                copies = {k: v for k, v in copies.items() if k in keep}
             for idx, (k, (cp, phase, n_before, n_like_k)) in enumerate(sorted(copies.items())):
                 if viols:
                     break
